@@ -471,8 +471,11 @@ def r_hook_tables(ctx):
                 v = a.args[0]
                 if not is_const(v, 0):
                     blk0 = flow.block_of(common.stmt_of(a))[2]
+                    from ..classes import _feeds_sink
                     together = [x for x in blk0 if isinstance(x, ast.Expr) and isinstance(x.value, ast.Call) and call_name(x.value) == "append"
-                                and dotted(x.value.func.value) == "self.list_of_class_constraints" and x.value.args and dotted(x.value.args[0]) == dotted(v)]
+                                and (dotted(x.value.func.value) == "self.list_of_class_constraints" or
+                                     (isinstance(x.value.func.value, ast.Name) and _feeds_sink(fn, x.value.func.value.id)))       # or a local list poured into it later
+                                and x.value.args and dotted(x.value.args[0]) == dotted(v)]
                     if not (isinstance(v, ast.Name) and len(together) == 1):
                         msg = "the cell `%s` is not the constraint that is added to the class list in the same iteration" % src(v)
                         break
